@@ -8,6 +8,7 @@ import QModel.Pipeline
 import QModel.Skeleton
 import QModel.Calib
 import QModel.Validate
+import QModel.Serialize
 open Lean Num Nd Arith Cfg Graph Mat
 
 /-! JSON-lines driver: one request per line on stdin, one response per line on stdout. -/
@@ -522,6 +523,10 @@ def handle (j : Json) : Except String Json := do
       pure (pyToJson (fun (g : Validate.Groups) => Json.mkObj [("inputs", groupToJson g.inputs), ("outputs", groupToJson g.outputs),
           ("constants", groupToJson g.constants), ("intermediates", groupToJson g.intermediates)])
         (Validate.compare metric samples ins.toList outs.toList cs.toList))
+  | "ser_offsets" =>
+      let d ← j.getObjValAs? Nat "dummyLen"
+      let sizes ← getNatList j "sizes"
+      pure (okJson (Json.arr ((Ser.offsets d sizes).map fun p => Json.arr #[toJson p.1, toJson p.2]).toArray))
   | _ => throw s!"unknown op {op}"
 
 end Drv
